@@ -12,6 +12,7 @@
 package main
 
 import (
+	"bytes"
 	"encoding/json"
 	"errors"
 	"flag"
@@ -246,6 +247,7 @@ type endpoint struct {
 }
 
 type pair struct {
+	srvIn    *tk.Wire // tlcp: the wire the server reads from
 	cli, srv *endpoint
 	maxOne   int // largest payload that is certainly one record
 }
@@ -266,7 +268,7 @@ func newPair(o opts) (*pair, error) {
 	ccfg := tk.EPConfig{Suites: []uint16{o.suite}, Ident: "cli", ServerName: "server.test", PMTU: 1400, RetransMs: o.retrans, MaxRetransMs: 400}
 	scfg := tk.EPConfig{Ident: "srv", PMTU: 1400, RetransMs: o.retrans, MaxRetransMs: 400}
 	if o.stack == "tlcp" {
-		craw, sraw, _, _ := tk.StreamPair()
+		craw, sraw, c2s, _ := tk.StreamPair()
 		var cnc, snc net.Conn = &yConn{craw, y}, &yConn{sraw, y}
 		if o.gateCli > 0 {
 			cnc = &gateConn{Conn: craw, after: o.gateCli, sleep: o.gateFor}
@@ -284,7 +286,7 @@ func newPair(o opts) (*pair, error) {
 				active:   c.VerifActiveCall,
 				rawClose: func() { raw.Close() }}
 		}
-		return &pair{cli: mk(c, craw), srv: mk(s, sraw), maxOne: 600}, nil
+		return &pair{cli: mk(c, craw), srv: mk(s, sraw), maxOne: 600, srvIn: c2s}, nil
 	}
 	cpc, err := net.ListenPacket("udp", "127.0.0.1:0")
 	if err != nil {
@@ -684,6 +686,112 @@ func scReaders(o opts, r *rand.Rand, out *RunOut) error {
 	return nil
 }
 
+// shortReads (datagram stack): one goroutine reads with a buffer shorter than a record (Read hands the record out in
+// pieces), another one reads whole records with ReadFrom: every byte the peer wrote is delivered exactly once.
+// Each payload is filled with its own byte value, so the accounting does not depend on which reader got which piece.
+func scShortReads(o opts, r *rand.Rand, out *RunOut) error {
+	if o.stack != "dtlcp" {
+		out.Skip = true
+		return nil
+	}
+	p, err := newPair(o)
+	if err != nil {
+		return err
+	}
+	var hc, hs results
+	if !preHandshake(p, out, &hc, &hs) {
+		return nil
+	}
+	g := newGroup()
+	np := 8 + r.IntN(8)
+	want := map[byte]int{}
+	total := 0
+	var pls [][]byte
+	for i := 1; i <= np; i++ {
+		n := 150 + r.IntN(500)
+		pls = append(pls, bytes.Repeat([]byte{byte(i)}, n))
+		out.Tags = append(out.Tags, [2]int{i, n})
+		want[byte(i)] = n
+		total += n
+	}
+	var mu sync.Mutex
+	got := map[byte]int{}
+	seen := 0
+	done := make(chan struct{})
+	var once sync.Once
+	account := func(b []byte) {
+		mu.Lock()
+		for _, x := range b {
+			if x == 255 {
+				continue
+			}
+			got[x]++
+			seen++
+		}
+		if seen >= total {
+			once.Do(func() { close(done) })
+		}
+		mu.Unlock()
+	}
+	short := 64 + r.IntN(100)
+	var gaps []time.Duration
+	for range pls {
+		gaps = append(gaps, time.Duration(r.IntN(300))*time.Microsecond)
+	}
+	g.goFn(func() {
+		buf := make([]byte, short)
+		for {
+			n, err := p.srv.Read(buf)
+			account(buf[:n])
+			if err != nil {
+				return
+			}
+		}
+	})
+	g.goFn(func() {
+		buf := make([]byte, 4096)
+		for {
+			n, err := p.srv.readFrom(buf)
+			account(buf[:n])
+			if err != nil {
+				return
+			}
+		}
+	})
+	g.goFn(func() {
+		for i, pl := range pls {
+			p.cli.Write(pl)
+			time.Sleep(gaps[i])
+		}
+		// a reader that holds the rest of a record cannot hand it out while the other reader waits for a datagram with
+		// the read half locked: keep single bytes (value 255, not counted) trickling in until everything is accounted for
+		for k := 0; k < 400; k++ {
+			select {
+			case <-done:
+				return
+			default:
+			}
+			p.cli.Write([]byte{255})
+			time.Sleep(2 * time.Millisecond)
+		}
+	})
+	select {
+	case <-done:
+	case <-time.After(3 * time.Second):
+	}
+	out.Tail, out.Sub = true, true
+	finish(p, g, out, &hc, &hs, nil)
+	mu.Lock()
+	for v, n := range got {
+		if w, ok := want[v]; !ok || (n != w && n != 0) {
+			out.BadWrite++
+			out.Note = fmt.Sprintf("byte value %d delivered %d times, written %d times", v, n, w)
+		}
+	}
+	mu.Unlock()
+	return nil
+}
+
 // closeRace: Close on the client while its writers are writing and a reader is blocked in Read
 func scCloseRace(o opts, r *rand.Rand, out *RunOut) error {
 	p, err := newPair(o)
@@ -801,10 +909,39 @@ func scCloseHandshake(o opts, r *rand.Rand, out *RunOut) error {
 	}
 	g := newGroup()
 	var hc, hs results
-	g.goFn(func() { hc.add(class(p.cli.Handshake())) })
+	// the call that runs the client's handshake: Handshake, or the first Read / Write / ReadFrom / WriteTo (one per run)
+	first := out.Run % 3
+	if p.cli.readFrom != nil {
+		first = out.Run % 5
+	}
+	g.goFn(func() {
+		buf := make([]byte, 64)
+		var err error
+		switch first {
+		case 0:
+			err = p.cli.Handshake()
+		case 1:
+			_, err = p.cli.Read(buf)
+		case 2:
+			_, err = p.cli.Write(payload(1, 20))
+		case 3:
+			_, err = p.cli.readFrom(buf)
+		case 4:
+			_, err = p.cli.writeTo(payload(1, 20))
+		}
+		hc.add(class(err))
+	})
 	g.goFn(func() { hs.add(class(p.srv.Handshake())) })
 	time.Sleep(250 * time.Millisecond)
-	p.cli.Close()
+	closed := make(chan struct{})
+	go func() { p.cli.Close(); close(closed) }()
+	select {
+	case <-closed:
+	case <-time.After(4 * time.Second):
+		out.Stalled = true
+		out.Note = "Close did not return while the first call was inside the handshake"
+		p.cli.rawClose()
+	}
 	out.Active = -1
 	time.Sleep(5 * time.Millisecond)
 	p.srv.Close()
@@ -886,6 +1023,61 @@ func scDeadlines(o opts, r *rand.Rand, out *RunOut) error {
 	pre.wait(5 * time.Second)
 	out.Note = fmt.Sprintf("cli=%v srv=%v", hc.v, hs.v)
 	out.HsCli, out.HsSrv = nil, nil // the results after the forced Close are not the observation here
+	return nil
+}
+
+// deadlineWakes: a reader is blocked with part of a record in hand (the transport holds the rest back); another
+// goroutine sets the read deadline to now to wake it, clears the deadline again and the rest arrives: the reader
+// reads on and no byte is lost (stream stack)
+func scDeadlineWakes(o opts, r *rand.Rand, out *RunOut) error {
+	if o.stack != "tlcp" {
+		out.Skip = true
+		return nil
+	}
+	p, err := newPair(o)
+	if err != nil {
+		return err
+	}
+	var hc, hs results
+	if !preHandshake(p, out, &hc, &hs) {
+		return nil
+	}
+	g := newGroup()
+	n := 300 + r.IntN(900)
+	pl := payload(1, n)
+	out.Tags = append(out.Tags, [2]int{1, n})
+	p.srvIn.Deadlines = true
+	p.srvIn.PauseAt = p.srvIn.DeliveredLen() + []int{2, 5, 9, 40, 200}[r.IntN(5)]
+	sk := newSink(1, hdrLen+n)
+	g.goFn(func() {
+		buf := make([]byte, 4096)
+		for {
+			k, err := p.srv.Read(buf)
+			if k > 0 {
+				sk.put(0, buf[:k])
+			}
+			if err != nil {
+				var ne net.Error
+				if errors.As(err, &ne) && ne.Timeout() {
+					continue
+				}
+				return
+			}
+		}
+	})
+	g.goFn(func() { p.cli.Write(pl) })
+	time.Sleep(time.Duration(1+r.IntN(4)) * time.Millisecond)
+	p.srv.SetReadDeadline(time.Now())
+	time.Sleep(time.Duration(200+r.IntN(2000)) * time.Microsecond)
+	p.srv.SetReadDeadline(time.Time{})
+	p.srvIn.Resume()
+	select {
+	case <-sk.done:
+	case <-time.After(5 * time.Second):
+		out.Note = "the payload did not arrive after the deadline was cleared"
+		out.Stalled = true
+	}
+	finish(p, g, out, &hc, &hs, sk)
 	return nil
 }
 
@@ -1046,6 +1238,8 @@ var scenarios = map[string]scenarioFn{
 	"close-race":      scCloseRace,
 	"close-handshake": scCloseHandshake,
 	"close-blocked":   scCloseBlockedWrite,
+	"deadline-wakes":  scDeadlineWakes,
+	"short-reads":     scShortReads,
 	"accessors":       scAccessors,
 	"deadlines":       scDeadlines,
 	"pa":              scPa,
